@@ -106,6 +106,7 @@ typedef struct trial {
 	_Atomic uint64_t ops_done, barriers_run, cleanups;
 	_Atomic int retired;
 	int close_place, close_stop, closed;
+	int directed;                      /* --mode=pipe-hangup: reader goes away while a write waits on a full pipe */
 	uint64_t close_call, close_ret;
 	uint64_t wcum;                     /* write trials: code position of the next write */
 	char desc[640], opsdesc[300];
@@ -440,6 +441,7 @@ static void start_drainer(trial_t *t, size_t cap)
 	if (d->style == DS_HANGUP && t->transport == TR_PIPE && !vf_opt_long("pipe-hangup", 1)) d->style = DS_STALL;
 	d->hang_after = d->style == DS_HANGUP ? vf_rnd_n(r, (uint32_t)(cap / 2 + 2)) : 0;
 	d->linger_us = d->style == DS_HANGUP && vf_rnd_n(r, 2) ? vf_rnd_range(r, 500, 8000) : 0;
+	if (t->directed) { d->style = DS_HANGUP; d->hang_after = vf_rnd_n(r, (uint32_t)(cap / 4 + 1)); d->linger_us = vf_rnd_range(r, 3000, 8000); }
 	vf_rng_seed(&d->rng, t->salt, 502);
 	if (pthread_create(&t->th, NULL, drainer_main, d)) vf_fail("pthread_create");
 	t->th_running = 1;
@@ -934,10 +936,14 @@ static void run_chan_trial(trial_t *t)
 	k = vf_rnd_n(r, 100);
 	t->close_place = k < 22 ? CP_AFTER_DONE : k < 34 ? CP_RELEASE_ONLY : k < 42 ? CP_BEFORE_ANY : k < 62 ? CP_BETWEEN : CP_IN_FLIGHT;
 	t->close_stop = t->close_place != CP_RELEASE_ONLY && vf_rnd_n(r, 2);
+	if (t->directed) {
+		t->transport = TR_PIPE; t->mode = DISPATCH_IO_STREAM; t->ctor = vf_rnd_n(r, 2) ? CT_CREATE : CT_WITH_IO;
+		t->close_place = vf_rnd_n(r, 2) ? CP_AFTER_DONE : CP_RELEASE_ONLY; t->close_stop = 0;
+	}
 	/* water marks (low <= high always) and an optional change between operations */
 	size_t low = 0, high = SIZE_MAX, mlow = 0, mhigh = SIZE_MAX;
 	int what = 0;
-	k = vf_rnd_n(r, 100);
+	k = t->directed ? 0 : vf_rnd_n(r, 100);
 	t->wm_class = k < 12 ? 0 : k < 32 ? 1 : k < 55 ? 2 : k < 85 ? 3 : 4;
 	switch (t->wm_class) {
 	case 0: break;
@@ -947,12 +953,13 @@ static void run_chan_trial(trial_t *t)
 	default: low = high = draw_high(r); what = 3; break;
 	}
 	int mid_at = vf_rnd_n(r, 8) == 0 ? (int)vf_rnd_range(r, 1, 3) : -1;
+	if (t->directed) mid_at = -1;
 	if (mid_at >= 0) { mlow = draw_low(r); mhigh = draw_high(r); if (mlow > mhigh) { size_t x = mlow; mlow = mhigh; mhigh = x; } }
 	size_t minhigh = high;
 	if (mid_at >= 0 && mhigh < minhigh) minhigh = mhigh;
 	t->budget = budget_for(minhigh);
 	t->iv_class = 0;
-	if (vf_rnd_n(r, 10) < 3) {
+	if (vf_rnd_n(r, 10) < 3 && !t->directed) {
 		static const uint64_t ivs[] = { 100000, 1000000, 3000000, 10000000 };
 		t->iv_class = 1 + (int)vf_rnd_n(r, 4);
 		t->interval = ivs[t->iv_class - 1];
@@ -985,6 +992,7 @@ static void run_chan_trial(trial_t *t)
 			p->off = t->mode == DISPATCH_IO_RANDOM ? (off_t)vf_rnd_n(r, (uint32_t)span + 17) : (vf_rnd_n(r, 4) ? 0 : (off_t)vf_rnd_n(r, 1000)) /* ignored for streams */;
 		} else {
 			size_t l = k < 6 ? 0 : k < 12 ? 1 : k < 32 ? vf_rnd_range(r, 2, 4096) : k < 72 ? vf_rnd_range(r, 4097, 100000) : vf_rnd_range(r, 100001, 524288);
+			if (t->directed && i == 0) l = 300000;
 			if (l > left) l = left;
 			left -= l;
 			p->len = l;
@@ -1141,6 +1149,7 @@ static void run_conv_trial(trial_t *t)
 	vf_rng_t *r = &t->rng;
 	uint32_t k = vf_rnd_n(r, 100);
 	t->transport = k < 40 ? TR_PIPE : k < 65 ? TR_SOCK : TR_FILE;
+	if (t->directed) t->transport = TR_PIPE;
 	t->mode = DISPATCH_IO_STREAM;
 	t->ctor = CT_CONV;
 	t->nch = 0; t->opch = 0;
@@ -1158,6 +1167,7 @@ static void run_conv_trial(trial_t *t)
 		for (int i = 0; i < nw; i++) {
 			k = vf_rnd_n(r, 100);
 			size_t l = k < 5 ? 0 : k < 10 ? 1 : k < 30 ? vf_rnd_range(r, 2, 4096) : k < 75 ? vf_rnd_range(r, 4097, 100000) : vf_rnd_range(r, 100001, 400000);
+			if (t->directed && i == 0) l = 300000;
 			if (l > left) l = left;
 			left -= l; wl[i] = l; wtotal += l;
 		}
@@ -1255,6 +1265,11 @@ static void run_trial(int idx)
 	else if (!strcmp(mode, "write")) { conv = 0; t->dir = K_WRITE; }
 	else if (!strcmp(mode, "conv")) conv = 1;
 	else if (!strcmp(mode, "chan")) conv = 0;
+	else if (!strcmp(mode, "pipe-hangup")) {
+		/* directed scenario; no delays at the atomics so that a spinning manager thread shows up as CPU time */
+		t->directed = 1; t->dir = K_WRITE; conv = (int)vf_rnd_n(r, 2);
+		vf_perturb_off(); t->prof.kind = VF_P_OFF; snprintf(t->prof.desc, sizeof(t->prof.desc), "off");
+	}
 	t->maxops = conv ? MAXOPS : 24;
 	t->ops = calloc((size_t)t->maxops, sizeof(op_t));
 	if (conv) run_conv_trial(t); else run_chan_trial(t);
